@@ -14,10 +14,10 @@ import (
 
 func init() {
 	Registry["C05"] = c05
-	Metas["C05"] = Meta{Level: "other", NeedCG: true,
+	Metas["C05"] = Meta{Ref: true, Level: "other", NeedCG: true,
 		Technique: "static analysis: effect-set (append vs reset) check of per-block accumulators, dominance of state rebuild, who-may-call of the execution callbacks, publish-order check around atomic status stores, nondeterminism-source lint with a reviewed table",
-		Explain: "Determinism of replicated execution is a hyperproperty over two runs and is not decided. Decided are structural necessary conditions: (R1) every EVMApp field that the per-transaction end callback appends to is reset on the commit path, so a block's receipts hash cannot depend on earlier blocks of the same process lifetime; (R2) OnExecute rebuilds currentState from the persisted last app hash, unconditionally, before any transaction runs, and nothing else assigns currentState; (R3) the execution callbacks are invoked only by the in-order executor loop (never from a worker goroutine) with the outer loop index, the serial variant (which does not verify signatures) has no production caller, and the worker count only sizes the verifier pool; (R4) in the parallel verifier no plain field of a transaction slot is written after the atomic store that publishes its terminal status; (R5) in the AnnChain-specific execution/commit/hash code every map iteration and every time/rand/NumCPU use is in the reviewed table (order-insensitive or not feeding replicated state); (R6) the receipts hash is computed from the block's receipts then key-value records, in slice order. (R7) no package-level variable of the application or state packages is written after initialisation (evmConfig is shared by block execution and RPC queries). (R2 also) the gas pool given to ApplyTransaction is created per transaction. NOT decided: equality of hashes between runs, EVM determinism (C10/C11).",
-		Assume: []string{"the in-tree EVM and trie are deterministic (C10/C11)", "rlp encoding is canonical (C18)"},
+		Explain:   "Determinism of replicated execution is a hyperproperty over two runs and is not decided. Decided are structural necessary conditions: (R1) every EVMApp field that the per-transaction end callback appends to is reset on the commit path, so a block's receipts hash cannot depend on earlier blocks of the same process lifetime; (R2) OnExecute rebuilds currentState from the persisted last app hash, unconditionally, before any transaction runs, and nothing else assigns currentState; (R3) the execution callbacks are invoked only by the in-order executor loop (never from a worker goroutine) with the outer loop index, the serial variant (which does not verify signatures) has no production caller, and the worker count only sizes the verifier pool; (R4) in the parallel verifier no plain field of a transaction slot is written after the atomic store that publishes its terminal status; (R5) in the AnnChain-specific execution/commit/hash code every map iteration and every time/rand/NumCPU use is in the reviewed table (order-insensitive or not feeding replicated state); (R6) the receipts hash is computed from the block's receipts then key-value records, in slice order. (R7) no package-level variable of the application or state packages is written after initialisation (evmConfig is shared by block execution and RPC queries). (R2 also) the gas pool given to ApplyTransaction is created per transaction. NOT decided: equality of hashes between runs, EVM determinism (C10/C11).",
+		Assume:    []string{"the in-tree EVM and trie are deterministic (C10/C11)", "rlp encoding is canonical (C18)"},
 	}
 }
 
@@ -33,6 +33,7 @@ func c05(c *Ctx) {
 	c05R7(c)
 	c05R8(c)
 	shared(c, "C06", c06R1)
+	shared(c, "C10", vmEquivShared)
 }
 
 func isResetVal(v ssa.Value) bool {
@@ -162,7 +163,9 @@ func c05R2(c *Ctx) {
 	ok := len(sts) == 1 && ex != nil && cfgx.Expr(sts[0].Val) == want && f.Dominates(sts[0], ex) && len(f.Guards(sts[0])) == 0
 	c.R.Ob(rule, "OnExecute:rebuild≺execute", ok, c.P.Pos(f.F.Pos()), fname(f), "the working state must be re-opened from the persisted app hash, unconditionally, before the block's transactions run (a state object kept across blocks carries per-process counters into receipts)")
 	if ex != nil {
-		c.R.Ob(rule, "OnExecute:execute⊣state-opened", f.HasGuard(ex, func(g string) bool { return strings.HasPrefix(g, "(eth/core/state.New(") && strings.HasSuffix(g, "#1 == nil)") }), c.Pos(ex), fname(f), guardsText(f, ex))
+		c.R.Ob(rule, "OnExecute:execute⊣state-opened", f.HasGuard(ex, func(g string) bool {
+			return strings.HasPrefix(g, "(eth/core/state.New(") && strings.HasSuffix(g, "#1 == nil)")
+		}), c.Pos(ex), fname(f), guardsText(f, ex))
 		c.R.Ob(rule, "OnExecute:txs=block.Data.Txs", callArg(ex, 1) == "a3.Data.Txs", c.Pos(ex), fname(f), "executed transactions must be the block's")
 	}
 	for _, fn := range c.P.RepoFuncs() {
@@ -307,29 +310,29 @@ func c05R5(c *Ctx) {
 		"maprange:chain/app/evm.(*txSortedMap).Flatten":             "result is sorted by nonce before use",
 		"maprange:chain/app/evm.(*txSortedMap).Forward":             "mempool",
 		// clocks / randomness
-		"time:gemmill/state.(*TPSCalculator).AddRecord":   "metrics",
-		"time:gemmill/state.(*TPSCalculator).TPS":         "metrics",
-		"time:gemmill/state.NewTPSCalculator":             "metrics",
-		"time:gemmill/types.MakeBlock":                    "proposer stamps the block time; the value is part of the proposed block, which is what is replicated",
-		"time:gemmill/types.RandValidator":                "test helper",
-		"time:chain/app/evm.exeWithCPUParallelVeirfy$1":   "60s watchdog timer of the quit channel; does not influence results",
-		"time:chain/app/evm.validateRoutine":              "1µs back-off sleep while waiting for decoding",
-		"time:chain/app/evm.(*ethTxPool).addWaiting":      "mempool heartbeat timestamps",
-		"time:chain/app/evm.(*ethTxPool).handleAdminOP":   "mempool",
-		"time:chain/app/evm.(*ethTxPool).removeExpiredTxs": "mempool eviction",
-		"time:chain/app/evm.(*ethTxPool).evictionLoop":    "mempool eviction",
-		"maprange:chain/app/evm.(*ethTxPool).addWaiting":  "mempool",
-		"maprange:chain/app/evm.(*ethTxPool).loop":        "mempool eviction",
-		"maprange:chain/app/evm.(*ethTxPool).state":       "mempool statistics",
-		"time:chain/app/evm.(*ethTxPool).loop":            "mempool eviction ticker",
-		"maprange:chain/app/evm.(*kvBatch).saveKeyHistory": "puts one size record per distinct key into a write batch: order-insensitive",
+		"time:gemmill/state.(*TPSCalculator).AddRecord":       "metrics",
+		"time:gemmill/state.(*TPSCalculator).TPS":             "metrics",
+		"time:gemmill/state.NewTPSCalculator":                 "metrics",
+		"time:gemmill/types.MakeBlock":                        "proposer stamps the block time; the value is part of the proposed block, which is what is replicated",
+		"time:gemmill/types.RandValidator":                    "test helper",
+		"time:chain/app/evm.exeWithCPUParallelVeirfy$1":       "60s watchdog timer of the quit channel; does not influence results",
+		"time:chain/app/evm.validateRoutine":                  "1µs back-off sleep while waiting for decoding",
+		"time:chain/app/evm.(*ethTxPool).addWaiting":          "mempool heartbeat timestamps",
+		"time:chain/app/evm.(*ethTxPool).handleAdminOP":       "mempool",
+		"time:chain/app/evm.(*ethTxPool).removeExpiredTxs":    "mempool eviction",
+		"time:chain/app/evm.(*ethTxPool).evictionLoop":        "mempool eviction",
+		"maprange:chain/app/evm.(*ethTxPool).addWaiting":      "mempool",
+		"maprange:chain/app/evm.(*ethTxPool).loop":            "mempool eviction",
+		"maprange:chain/app/evm.(*ethTxPool).state":           "mempool statistics",
+		"time:chain/app/evm.(*ethTxPool).loop":                "mempool eviction ticker",
+		"maprange:chain/app/evm.(*kvBatch).saveKeyHistory":    "puts one size record per distinct key into a write batch: order-insensitive",
 		"maprange:gemmill/modules/go-merkle.(*nodeDB).Commit": "deletes distinct keys in a write batch: order-insensitive (IAVL store is not used by the EVM application)",
-		"rand:gemmill/types.TxsLenForTest":                "test-data generator (blockcache_other.go, 'for test code')",
-		"rand:gemmill/types.TxsNumForTest":                "test-data generator",
-		"rand:gemmill/types.randomTo2Nums":                "test-data generator",
-		"time:gemmill/state.MakeGenesisState":             "fills a missing genesis time once at chain creation; block time is not validated (C02: Time exempt)",
-		"numcpu:chain/app/evm.init":                       "initial worker count; uses checked by R3",
-		"rand:gemmill/types.RandValidator":                "test helper",
+		"rand:gemmill/types.TxsLenForTest":                    "test-data generator (blockcache_other.go, 'for test code')",
+		"rand:gemmill/types.TxsNumForTest":                    "test-data generator",
+		"rand:gemmill/types.randomTo2Nums":                    "test-data generator",
+		"time:gemmill/state.MakeGenesisState":                 "fills a missing genesis time once at chain creation; block time is not validated (C02: Time exempt)",
+		"numcpu:chain/app/evm.init":                           "initial worker count; uses checked by R3",
+		"rand:gemmill/types.RandValidator":                    "test helper",
 	}
 	pkgs := []string{"chain/app/evm", "gemmill/state", "gemmill/plugin", "gemmill/types", "gemmill/modules/go-merkle"}
 	found := map[string]string{}
@@ -520,7 +523,6 @@ func globalOf(c *Ctx, rel, name string) *ssa.Global {
 	g, _ := sp.Members[name].(*ssa.Global)
 	return g
 }
-
 
 // c05R8: read-only queries run on a state of their own.
 func c05R8(c *Ctx) {
